@@ -3,7 +3,8 @@ open RV.C03
 #print axioms nt_lit_roundtrip
 #print axioms turtle_str_roundtrip
 #print axioms shorthand_relex
-#print axioms num_text_roundtrip
+#print axioms num_text_roundtrip_partial
+#print axioms num_text_roundtrip_witness
 #print axioms plain_double_relex
 #print axioms plain_int_relex
 #print axioms plain_decimal_relex
